@@ -4,6 +4,18 @@ D = "cdd/compound/doctrans.py"
 A = "cdd/shared/ast_cst_utils.py"
 U = "cdd/compound/doctrans_utils.py"
 CONTROLS = [
+    dict(name="find_cst_at_ast keeps scanning after a match (index and node drift apart)",
+         edits=[(A, "            cst_node_found = cst_node\n            break\n", "            cst_node_found = cst_node\n")],
+         expect=r"find_cst_at_ast/(ensures\[0\]|loop0)"),
+    dict(name="find_cst_at_ast no longer compares names",
+         edits=[(A, '            and getattr(cst_node, "name", None) == getattr(node, "name", None)\n', "")],
+         expect=r"find_cst_at_ast/ensures\[1\]"),
+    dict(name="find_cst_at_ast accepts any CST type on the line",
+         edits=[(A, "            and type(cst_node).__name__ == cst_type  # `isinstance` doesn't work\n", "")],
+         expect=r"find_cst_at_ast/ensures\[2\]"),
+    dict(name="find_cst_at_ast returns the previous slot",
+         edits=[(A, "    return cst_node_no, cst_node_found", "    return (cst_node_no - 1 if cst_node_found is not None else cst_node_no), cst_node_found")],
+         expect=r"find_cst_at_ast/ensures\[0\]"),
     dict(name="doctrans streams: conversion runs after the file was opened for writing (seed C07_b shape)",
          edits=[(D, "        doctransify_cst(cst_list, node)\n\n        with open(filename, \"wt\") as f:\n            f.write(\"\".join(map(attrgetter(\"value\"), cst_list)))",
                  "        with open(filename, \"wt\") as f:\n            doctransify_cst(cst_list, node)\n            f.write(\"\".join(map(attrgetter(\"value\"), cst_list)))")],
